@@ -3,6 +3,7 @@ package c05
 import (
 	"fmt"
 	"math"
+	"runtime"
 	"sync"
 	"testing"
 
@@ -314,7 +315,36 @@ func TestScenes(t *testing.T) {
 			amp = rapid.SampledFrom([]float64{1, 1, 1, 5, 100}).Draw(t, "amplification")
 		}
 		rb := &lat.Recorder3{S: lat.Rebox3{S: lat.Scaled3{S: s, K: amp}, BB: nb}}
-		ts := render.ToTriangles(rb, r.mk(cells))
+		// a quarter of the scenes are rendered while two other renders (both renderer kinds, a sphere
+		// elsewhere) are in progress in the same process: a program that writes several parts in parallel
+		var ts []*sdf.Triangle3
+		if busyCase := rapid.IntRange(0, 3).Draw(t, "other-renders-running") == 0; busyCase {
+			stop := make(chan struct{})
+			var wg sync.WaitGroup
+			for i := 0; i < 2; i++ {
+				wg.Add(1)
+				go func(i int) {
+					defer wg.Done()
+					decoy, _ := sdf.Sphere3D(3)
+					d := sdf.Transform3D(decoy, sdf.Translate3d(v3.Vec{X: 1e3, Y: -1e3, Z: 5e2}))
+					for {
+						select {
+						case <-stop:
+							return
+						default:
+							render.ToTriangles(d, renderers[i%len(renderers)].mk(14+i))
+							runtime.Gosched()
+						}
+					}
+				}(i)
+			}
+			ts = render.ToTriangles(rb, r.mk(cells))
+			close(stop)
+			wg.Wait()
+			rec.Add("scene:rendered-while-other-renders-run", 1)
+		} else {
+			ts = render.ToTriangles(rb, r.mk(cells))
+		}
 		ax := lat.AxesOf3(rb.Pts, 1e-9*h)
 		if len(ax.X) < 2 || len(ax.Y) < 2 || len(ax.Z) < 2 {
 			// the octree pruned its top-level cube: an empty solid
